@@ -47,6 +47,22 @@ static int run(const std::string &ob, const Args &a)
         }
         return bad;
     }
+    if (ob.find("dispatch") != std::string::npos) {
+        // every pair of small Integers / Rationals through the virtual add/sub/mul/div, against GMP rational arithmetic done here
+        std::vector<RCP<const Number>> pool;
+        for (long n = -3; n <= 3; n++) for (long d = 1; d <= 3; d++) pool.push_back(Rational::from_two_ints(n, d));
+        auto q_of = [](const RCP<const Number> &x) { return is_a<Integer>(*x) ? rational_class(down_cast<const Integer &>(*x).as_integer_class()) : down_cast<const Rational &>(*x).as_rational_class(); };
+        const char *names[] = {"add", "sub", "mul", "div"};
+        for (auto &x : pool) for (auto &y : pool) for (int op = 0; op < 4; op++) {
+            if (op == 3 && y->is_zero()) continue;
+            RCP<const Number> r = op == 0 ? x->add(*y) : op == 1 ? x->sub(*y) : op == 2 ? x->mul(*y) : x->div(*y);
+            rational_class e = op == 0 ? q_of(x) + q_of(y) : op == 1 ? q_of(x) - q_of(y) : op == 2 ? q_of(x) * q_of(y) : q_of(x) / q_of(y);
+            canonicalize(e);
+            if (!(is_a<Integer>(*r) || is_a<Rational>(*r)) || !(q_of(r) == e) || !normal_real(r)) { std::cout << x->__str__() << " ." << names[op] << "( " << y->__str__() << " ) = " << r->__str__() << "\nREPRODUCED: not the exact normalised result\n"; return 1; }
+        }
+        std::cout << "not reproduced on the small pairs\n";
+        return 0;
+    }
     if (ob.find("powcomp") != std::string::npos) {
         long qn = has(a, "Z.imaginary_.num") ? int_of(a, "Z.imaginary_.num") : 5, qd = has(a, "Z.imaginary_.den") ? int_of(a, "Z.imaginary_.den") : 7;
         if (qn == 0) qn = 1; if (qd <= 0) qd = 1; if (qn > 12 || qn < -12) qn = 5; if (qd > 12) qd = 7;
